@@ -8,11 +8,11 @@
     key <genesis> <siglen>                      forget everything, set genesis hash and signature length
     h <in> <out> | v <msg> <sig> <0|1>          extend the tables
     tok <name> <prev> <chash> <sig> <content|none>
-    new <cap>                                   fresh tree
+    new <cap|default>                           fresh tree (default = the GENERATED unchained_max_size)
     gather <name>      -> <kind> <state>        kind: invalid | orphan | shadow | added
     append <name>      -> <state>               `_append` (own add)
     state              -> E=<id8>:<content|none>,... U=<id8>,...    (E in insertion order, U in waiting order)
-    verify <name> <maxdepth> -> true|false      path <name> <maxdepth> -> <id8>,...
+    verify <name> <maxdepth|default> -> true|false      path <name> <maxdepth|default> -> <id8>,...
     missing -> <hex>,...                        ser -> <hex>        serupto <name> -> <hex>
     unser <hex>        -> true|false|error <state>
     recv <name> <content> -> true|false <content|none>     (Token.receive_content on the named token)
@@ -51,6 +51,9 @@ def showKind : Kind → String
   | .shadow => "shadow"
   | .added => "added"
 
+def depth? (s : String) : Option Int :=
+  if s == "default" then some defaultMaxDepth else s.toInt?
+
 def content? (s : String) : Option (Option Bytes) :=
   if s == "none" then some none else (ofHex? s).map some
 
@@ -77,7 +80,7 @@ def step (s : St) (toks : List String) : St × String :=
       ({ s with toks := (n, ⟨p, c, sg, ct⟩) :: s.toks.filter (fun e => e.1 != n) }, "ok")
     | _, _, _, _ => bad
   | ["new", c] =>
-    match c.toNat? with
+    match (if c == "default" then some defaultCap else c.toNat?) with
     | some c => ({ s with cap := c, tree := Tree.empty }, "ok")
     | none => bad
   | ["gather", n] =>
@@ -95,11 +98,11 @@ def step (s : St) (toks : List String) : St × String :=
     | none => bad
   | ["state"] => (s, showState C s.tree)
   | ["verify", n, d] =>
-    match find n, d.toInt? with
+    match find n, depth? d with
     | some t, some d => (s, toString (verify C s.g s.tree t d))
     | _, _ => bad
   | ["path", n, d] =>
-    match find n, d.toInt? with
+    match find n, depth? d with
     | some t, some d => (s, ",".intercalate ((rootPath C s.g s.tree t d).map (fun t => id8 (t.id C))))
     | _, _ => bad
   | ["missing"] => (s, ",".intercalate ((missing s.tree).map toHex))
